@@ -8,7 +8,7 @@ From RU Require Import Base.Prelude Base.Utf8 Model.AsciiSet Gen.Tables Model.Pe
   Proofs.ListN Proofs.C09_Wf Proofs.C09_Host Proofs.C09_Inst
   Proofs.C02_AuthParts Proofs.C04_ParseTotal Proofs.C03_ReachParts Proofs.C03_Reach Proofs.C03_ReachFile Proofs.C03_ReachHost
   Proofs.C06_Suffix Proofs.C06_Main Proofs.C05_Comp Proofs.C05_CompSteps Proofs.C05_CompHist
-  Proofs.C06_Host Proofs.C05_History Proofs.C05_ParseAll Proofs.C05_CompSteps2 Proofs.C05_CompReach Proofs.C05_BaseOk Proofs.C05_CompSteps3.
+  Proofs.C06_Host Proofs.C05_History Proofs.C05_ParseAll Proofs.C05_CompSteps2 Proofs.C05_CompReach Proofs.C05_BaseOk Proofs.C05_CompSteps3 Proofs.C03_WF Proofs.C05_Enc Proofs.C05_Alphabet.
 
 Theorem model_HostWf idna : IdnaOK idna -> HostWf (host_parse idna) host_parse_opaque host_display.
 Proof. intros OK. apply HostRT_HostWf. exact (model_HostRT idna OK). Qed.
@@ -66,5 +66,14 @@ Qed.
 
 Theorem reach3_components_model u : CReach3 dbg hp hpo hd u -> wfh u /\ components_clean dbg u.
 Proof using OK. exact (creach3_components dbg hp hpo hd (model_HostWf idna OK) (model_IpDisp idna OK) u). Qed.
+
+(* C05: the alphabet of the whole serialization (space solely inside an opaque path) for every record of CReach3
+   whose stored host text has no space *)
+Theorem reach3_alphabet_model u : CReach3 dbg hp hpo hd u ->
+  (has_host u = true -> ~ In 32 (piece u (host_start u) (host_end u))) -> alphabet_ok u.
+Proof using OK.
+  apply (creach3_alphabet dbg hp hpo hd (model_HostWf idna OK) (model_HostOK_C05 idna OK) (model_IpDisp idna OK)).
+  intros h Hv. apply model_IpOK_wf. destruct h as [d|a|p]; [destruct Hv | exact Hv | exact Hv].
+Qed.
 
 End InstWf.
